@@ -137,6 +137,18 @@ def get_formula_helpers():
     return find_in_package(cnfgen.clihelpers, test, sortkey=lambda x: x.name)
 
 
+class SeedAction(argparse.Action):
+    """Seed the random generator as soon as the option is met
+
+Random graph arguments (e.g. 'gnp 10 .5') are sampled while the rest of
+the command line is parsed, therefore the seed must be installed
+before that, and for any integer value (0 included)."""
+    def __call__(self, parser, args, values, option_string=None):
+        import random
+        setattr(args, self.dest, values)
+        random.seed(values)
+
+
 class CLIError(Exception):
     """Error related to the command line arguments
 
